@@ -57,6 +57,14 @@ func VerifH_C09_keys() {
 	// field names are graph.v.label style paths and document ids are element ids: both NUL-free
 	vAssume(!c09NUL(field) && !c09NUL(doc))
 	vAssert("C09.key.field-roundtrip", FieldKeyParse(FieldKey(field)) == field)
+	// the per-field scan/delete prefixes capture exactly the keys of that field
+	field2 := vNondetString("field2", L)
+	vAssume(!c09NUL(field2))
+	ek := EntryKey(field2, TermString, []byte("t"), doc)
+	tk := TermKey(field2, TermString, []byte("t"))
+	vAssert("C09.key.entry-field-prefix-isolation", bytes.HasPrefix(ek, EntryPrefix(field)) == (field == field2))
+	vAssert("C09.key.term-field-prefix-isolation", bytes.HasPrefix(tk, TermPrefix(field)) == (field == field2))
+	vAssert("C09.key.entry-type-prefix-isolation", bytes.HasPrefix(ek, EntryTypePrefix(field, TermString)) == (field == field2))
 	if vChoice("termtype", 2) == 0 {
 		term := vNondetString("term", L)
 		vKnown("C09/string-term-with-nul", c09NUL(term))
@@ -125,12 +133,21 @@ func VerifH_C09_history() {
 	kv := vNewKV()
 	idx := NewIndex(kv)
 	idx.AddField("f.x")
+	idx.AddField("f.xy") // a second indexed field whose name extends the first
+	idx.AddDoc("k1", map[string]interface{}{"f": map[string]interface{}{"xy": "w"}})
+	xRemoved := false
 	docs := []*c09Doc{{id: "d1"}, {id: "d2"}}
 	replaced := false
 	for s := 0; s < D; s++ {
 		name := "s" + string(rune('0'+s))
 		d := docs[vChoice(name+".doc", 2)]
-		switch vChoice(name+".op", 2) {
+		switch vChoice(name+".op", 3) {
+		case 2: // stop indexing f.x: its terms and entries go away, f.xy stays
+			idx.RemoveField("f.x")
+			xRemoved = true
+			for _, o := range docs {
+				o.live = false
+			}
 		case 0: // AddDoc (insert or replace)
 			if d.live {
 				replaced = true
@@ -148,6 +165,15 @@ func VerifH_C09_history() {
 		case 1:
 			idx.RemoveDoc(d.id)
 			d.live = false
+		}
+		// the sibling field is never touched by any operation on f.x
+		sib := c09Match(idx, "f.xy", "w")
+		vAssert("C09.hist.sibling-field-intact", len(sib) == 1 && sib[0] == "k1")
+		if xRemoved {
+			// documents added after the removal are not indexed under f.x any more
+			for _, o := range docs {
+				o.live = false
+			}
 		}
 		vKnown("C09/replace-leaves-old-entry", replaced)
 		negZero := false
